@@ -85,7 +85,7 @@ func (g *valueGen) collLen(path string) int {
 	return 1 + g.pick(max, path, "len")
 }
 
-var mapKeys = []string{"a", "b", "", "key with space", "K", "ünï", "z9", "a.b"}
+var mapKeys = []string{"a", "b", "", "key with space", "K", "ünï", "z9", "a.b", "name", "value", "key", "active", "0", "null"}
 
 func (g *valueGen) mapKey(path string, i int) string {
 	if i >= len(mapKeys) {
